@@ -702,6 +702,7 @@ int disasm_msp430(
       {
         case OP_NONE:
           strcpy(instruction, table_msp430[n].instr);
+          count += 2;
           break;
         case OP_ONE_OPERAND:
         case OP_ONE_OPERAND_W:
